@@ -143,8 +143,16 @@ package parser
 //@        (es[k].kind == EXEC_DEF ==> is(es[k].proc.Body, process.CallForm))
 
 //@ spec countFuns(es []unexpandedProcessOrFunction, n int) int = ite(n <= 0, 0, countFuns(es, n - 1) + ite(es[n-1].kind == FUNCTION_DEF, 1, 0))
+// C12 above the tokens: every statement of the text becomes part of the program - as many function definitions, type
+// definitions and processes (declared ones and one per `exec`) as the text has statements of that kind, and every
+// assumed name
+//@ spec countKind(es []unexpandedProcessOrFunction, k Kind, n int) int = ite(n <= 0, 0, countKind(es, k, n - 1) + ite(es[n-1].kind == k, 1, 0))
+//@ spec countAssumed(es []unexpandedProcessOrFunction, n int) int = ite(n <= 0, 0, countAssumed(es, n - 1) + ite(es[n-1].kind == ASSUMING_DEF, len(es[n-1].assumedFreeNameTypes), 0))
 //@ contract expandProcesses
 //@   requires[C11] entriesOK(u.procsAndFuns)
+//@   loop 1 invariant len(typeDefs) == countKind(u.procsAndFuns, TYPE_DEF, idx + 1) && len(processes) == countKind(u.procsAndFuns, PROCESS_DEF, idx + 1) && len(assumedFreeNames) == countAssumed(u.procsAndFuns, idx + 1)
+//@   loop 3 invariant len(processes) == countKind(u.procsAndFuns, PROCESS_DEF, len(u.procsAndFuns)) + countKind(u.procsAndFuns, EXEC_DEF, idx + 1)
+//@   ensures C12.keepsAll: result3 == nil ==> len(result0) == countKind(u.procsAndFuns, PROCESS_DEF, len(u.procsAndFuns)) + countKind(u.procsAndFuns, EXEC_DEF, len(u.procsAndFuns)) && len(result1) == countAssumed(u.procsAndFuns, len(u.procsAndFuns)) && len(deref(result2.FunctionDefinitions)) == countFuns(u.procsAndFuns, len(u.procsAndFuns)) && len(deref(result2.Types)) == countKind(u.procsAndFuns, TYPE_DEF, len(u.procsAndFuns))
 //@   loop 1 invariant len(functions) == countFuns(u.procsAndFuns, idx + 1)
 //@   callsite C14.execSeesAllFunctions process.GetFunctionByNameArity#1: len(functions) == countFuns(u.procsAndFuns, len(u.procsAndFuns))
 //@   ensures C12.expandEnv: result3 == nil ==> result2 != nil
